@@ -522,9 +522,9 @@ Theorem uncles_iff c chain blocks now b :
    bl_version b <> 0 /\
    uncles_ok_from c chain now (h_parent bh) ((h_hash bh, bh) :: anc) (h_hash bh :: unc) (bl_uncles b)).
 Proof.
-  cbv zeta. unfold verify_uncles, max_uncles_at.
+  cbv zeta. unfold verify_uncles, verify_uncles_v, gather, max_uncles_at.
   destruct header_constants as [_ [_ [_ [_ [-> ->]]]]].
-  destruct (gather 7 blocks (h_parent (bl_header b)) (u64 (big_uint64 (h_number (bl_header b)) - 1)) [] [])
+  destruct (gather_v OwnHeight 7 blocks (h_parent (bl_header b)) (u64 (big_uint64 (h_number (bl_header b)) - 1)) [] [])
     as [[number anc] unc] eqn:Eg.
   intros Hn.
   destruct (Z.of_nat (length (bl_uncles b)) >? 2) eqn:E2.
@@ -551,7 +551,7 @@ Proof.
   exists testnet_cfg, [], [], 2000,
     {| bl_header := {| h_hash := [x05]; h_parent := [x04]; h_number := 700; h_time := 1000; h_diff := 46039386;
                        h_gas_limit := 4712388; h_gas_used := 0; h_extra_len := 0; h_seal := 0 |};
-       bl_version := 3; bl_uncles := [junk] |}.
+       bl_version := 3; bl_uncles := [junk]; bl_uncles_stamped := [] |}.
   split; [vm_compute; reflexivity|]. split; [reflexivity|].
   intros u [<-|[]] p gp. unfold verify_header. cbn. discriminate.
 Qed.
@@ -620,9 +620,9 @@ Theorem uncles_iff_any_height c chain blocks now b :
    bl_version b <> 0 /\
    uncles_spec c chain now number (h_hash bh) (h_parent bh) ((h_hash bh, bh) :: anc) (h_hash bh :: unc) (bl_uncles b)).
 Proof.
-  cbv zeta. unfold verify_uncles, max_uncles_at.
+  cbv zeta. unfold verify_uncles, verify_uncles_v, gather, max_uncles_at.
   destruct header_constants as [_ [_ [_ [_ [-> ->]]]]].
-  destruct (gather 7 blocks (h_parent (bl_header b)) (u64 (big_uint64 (h_number (bl_header b)) - 1)) [] [])
+  destruct (gather_v OwnHeight 7 blocks (h_parent (bl_header b)) (u64 (big_uint64 (h_number (bl_header b)) - 1)) [] [])
     as [[number anc] unc] eqn:Eg.
   destruct (Z.of_nat (length (bl_uncles b)) >? 2) eqn:E2.
   { split; [discriminate|]. intros [H _]. destruct (is_hf c 5 _); lia. }
@@ -664,3 +664,51 @@ Lemma historic_exceptions_iff number block_hash uparent uhash unum :
     (dangling_allowed number uparent uhash unum = true <->
      number <= 15000 /\ (In (uparent, big_uint64 unum) dangling_parent_wl \/ In (uhash, big_uint64 unum) dangling_hash_wl)).
 Proof. split; [apply dup_allowed_iff | apply dangling_allowed_iff]. Qed.
+
+(* ---------------------------------------------------------------- identity of already-included uncles *)
+
+Lemma get_block_in blocks : forall hash n a, get_block blocks hash n = Some a -> In a blocks.
+Proof.
+  induction blocks as [|x l IH]; intros hash n a H; cbn in H; [discriminate|].
+  destruct (bytes_eqb (h_hash (bl_header x)) hash && (big_uint64 (h_number (bl_header x)) =? n)).
+  - inversion H; subst. left. reflexivity.
+  - right. eapply IH. exact H.
+Qed.
+
+(* when the chain reader hands the past uncles over under the version of their own height, hashing them as
+   stamped (uncle.Hash()) or after re-stamping (the code) is the same ... *)
+Lemma gather_v_same blocks :
+  (forall a, In a blocks -> bl_uncles_stamped a = map h_hash (bl_uncles a)) ->
+  forall fuel parent number anc unc,
+    gather_v AsStamped fuel blocks parent number anc unc = gather_v OwnHeight fuel blocks parent number anc unc.
+Proof.
+  intros H. induction fuel as [|f IH]; intros parent number anc unc; cbn [gather_v]; [reflexivity|].
+  destruct (get_block blocks parent number) as [a|] eqn:Ea; [|reflexivity].
+  unfold past_uncle_hashes. rewrite (H a (get_block_in _ _ _ _ Ea)). apply IH.
+Qed.
+
+Lemma verify_uncles_v_same c chain blocks now b :
+  (forall a, In a blocks -> bl_uncles_stamped a = map h_hash (bl_uncles a)) ->
+  verify_uncles_v AsStamped c chain blocks now b = verify_uncles c chain blocks now b.
+Proof. intros H. unfold verify_uncles, verify_uncles_v. rewrite (gather_v_same blocks H). reflexivity. Qed.
+
+(* ... but core.BlockChain.GetBlock stamps them with the INCLUDING block's version: across a version fork the two
+   identities differ, and only the code's choice (own height) recognises the second inclusion of an uncle *)
+Lemma uncle_identity_matters :
+  exists c chain blocks now b,
+    verify_uncles c chain blocks now b = Err EDuplicateUncle /\
+    verify_uncles_v AsStamped c chain blocks now b = Ok tt.
+Proof.
+  set (mk := fun hash parent num t d => {| h_hash := hash; h_parent := parent; h_number := num; h_time := t; h_diff := d;
+                                          h_gas_limit := 4712388; h_gas_used := 0; h_extra_len := 0; h_seal := 0 |}).
+  set (g := mk [x10] [x00] 20000 1000 46039386).     (* main chain 20000 .. 20002 on the test schedule *)
+  set (a1 := mk [x11] [x10] 20001 1100 46399068).
+  set (a2 := mk [x12] [x11] 20002 1200 46761560).
+  set (u := mk [x21] [x10] 20001 1101 46399068).     (* sibling of a1, included by a2 and offered again *)
+  exists test_cfg, [g; a1; a2],
+    [ {| bl_header := a2; bl_version := 2; bl_uncles := [u]; bl_uncles_stamped := [[xee]] |};
+      {| bl_header := a1; bl_version := 2; bl_uncles := []; bl_uncles_stamped := [] |};
+      {| bl_header := g; bl_version := 2; bl_uncles := []; bl_uncles_stamped := [] |} ], 5000,
+    {| bl_header := mk [x13] [x12] 20003 1300 47126884; bl_version := 2; bl_uncles := [u]; bl_uncles_stamped := [] |}.
+  split; vm_compute; reflexivity.
+Qed.
